@@ -119,6 +119,7 @@ func runGated(sl *SchedLine) History {
 	var a AState
 	_ = json.Unmarshal(sl.Init, &a)
 	o := Build(a)
+	o.concurrent = true
 	G := len(sl.Prog)
 	h := History{Init: sl.Init, Hist: make([][]HEvent, G), Flags: []string{}, Sched: sl.Sched, Mode: "gated"}
 	ctl := make(chan parkMsg)
@@ -307,6 +308,8 @@ func cmdGated(args []string) {
 	out := fs.String("out", "", "histories ndjson")
 	limit := fs.Int("limit", 0, "execute at most this many schedules (0 = all); a seeded sample is taken")
 	seed := fs.Int64("seed", 1, "seed")
+	first := fs.Int("first", 0, "after sampling: skip this many schedules")
+	count := fs.Int("count", 0, "after sampling: execute this many schedules (0 = the rest); used to narrow down a run that dies")
 	_ = fs.Parse(args)
 	f, err := os.Open(*in)
 	if err != nil {
@@ -325,6 +328,15 @@ func cmdGated(args []string) {
 		rng.Shuffle(len(lines), func(i, j int) { lines[i], lines[j] = lines[j], lines[i] })
 		lines = lines[:*limit]
 	}
+	if *first > 0 && *first <= len(lines) {
+		lines = lines[*first:]
+	}
+	if *count > 0 && *count < len(lines) {
+		lines = lines[:*count]
+	}
+	if *first > 0 || *count > 0 {
+		total = len(lines)
+	}
 	of, err := os.Create(*out)
 	if err != nil {
 		die(2, "%v", err)
@@ -337,6 +349,9 @@ func cmdGated(args []string) {
 	for _, l := range lines {
 		if deadlocks >= 3 {
 			break // every further deadlock costs a watchdog timeout; three are proof enough
+		}
+		if *count == 1 {
+			fmt.Printf("SELECTED %s\n", l) // announced BEFORE it runs: the run may not come back
 		}
 		executed++
 		var sl SchedLine
@@ -423,6 +438,7 @@ func cmdStress(args []string) {
 		init = init.Canon()
 		ij, _ := json.Marshal(init)
 		o := Build(init)
+		o.concurrent = true
 		G := 2 + rng.Intn(*maxG-1)
 		progs := make([][]Call, G)
 		for g := range progs {
@@ -567,6 +583,7 @@ func watchRun(init AState, rec *WatchRec, nSamp int) int {
 	rec.Rets, rec.Seen, rec.Flags = nil, nil, []string{}
 	{
 		o := Build(init)
+		o.concurrent = true
 		var phase int32 = -1
 		var stop, started int32
 		seen := make([][][maxLen + 1]bool, nSamp)
@@ -716,7 +733,36 @@ func replayFatal(b []byte) {
 	fmt.Println("AGREES (three runs of the driver ended normally)")
 }
 
+// replayFatalSched runs ONE schedule in a child process (a fatal runtime error cannot be recovered in-process)
+func replayFatalSched(b []byte) {
+	var rec struct {
+		Sched json.RawMessage `json:"schedule"`
+	}
+	if err := json.Unmarshal(b, &rec); err != nil || len(rec.Sched) == 0 {
+		die(2, "replay file: %v", err)
+	}
+	sf, _ := os.CreateTemp("", "fatal-sched-*.ndjson")
+	_, _ = sf.Write(append(append([]byte{}, rec.Sched...), '\n'))
+	sf.Close()
+	defer os.Remove(sf.Name())
+	of, _ := os.CreateTemp("", "fatal-hist-*.ndjson")
+	of.Close()
+	defer os.Remove(of.Name())
+	out, err := exec.Command(os.Args[0], "gated", "-sched", sf.Name(), "-out", of.Name()).CombinedOutput()
+	if err != nil && strings.Contains(string(out), "fatal error:") && strings.Contains(string(out), "go-stackage.") {
+		i := strings.Index(string(out), "fatal error:")
+		end := i + 300
+		if end > len(out) {
+			end = len(out)
+		}
+		fmt.Printf("DISAGREES kind=fatalsched (forcing this schedule kills the process with a fatal runtime error raised inside the package)\n  %s\n", strings.ReplaceAll(string(out[i:end]), "\n", " | "))
+		os.Exit(1)
+	}
+	fmt.Println("AGREES (the schedule ran to its end)")
+}
+
 func init() {
+	replayKinds["fatalsched"] = replayFatalSched
 	replayKinds["fatal"] = replayFatal
 	commands["gated"] = cmdGated
 	commands["stress"] = cmdStress
